@@ -324,11 +324,141 @@ def ax_glob_gate(tier):
     return None, len(ts)
 
 
+# ---------------------------------------------------------------- required languages of the remaining pattern literals
+# One-directional by design: each entry says what a statement NEEDS the pattern to accept (and how it must take the text apart), never what else
+# it may accept -- a literal that is widened for a new feature stays quiet, one that loses a required text is reported with that text.
+def _one_literal(file, fn, must, impl=None, which=0):
+    lits = [l for l in fn_literals(file, fn, impl) if all(m in l for m in must)]
+    uniq = []
+    for l in lits:
+        if l not in uniq:
+            uniq.append(l)
+    if len(uniq) <= which:
+        raise LostAnchor('axcheck: no pattern literal with %r in %s::%s' % (must, file, fn))
+    return uniq[which]
+
+
+def _caps_of(ptn, ts):
+    s_ = Session(); s_.set(ptn)
+    for t in ts:
+        s_.caps(t)
+    return [parse_caps(l) for l in s_.run()[1:]]
+
+
+def _required(name, ptn, cases):
+    """cases: (text, expected groups of the first match or True for `matches` / False for `must not match`)"""
+    got = _caps_of(ptn, [c[0] for c in cases])
+    for (t, want), c in zip(cases, got):
+        if want is False:
+            if c:
+                return {'string': t, 'detail': '%s: the pattern %r matches %r, which it must not' % (name, ptn, t)}
+            continue
+        if not c:
+            return {'string': t, 'detail': '%s: the pattern %r does not match %r' % (name, ptn, t)}
+        if want is not True and [g or '' for g in c[0][1:len(want) + 1]] != list(want):
+            return {'string': t, 'detail': '%s: the pattern %r takes %r apart into %r, needed %r' % (name, ptn, t, c[0][1:], want)}
+    return None
+
+
+NAMES_ID = ['a', 'A', '_', 'a1', '_x', 'Ab_9', 'PATH', 'x_y_z']
+VALUES = ['', 'v', 'a b', 'a=b', '=', '"q"', "'s'", 'x:y', '~/p', '$H', 'a\nb'.replace('\\n', '\n')]
+
+
+def ax_name_value(tier):
+    """NAME=VALUE words as the `export` and `alias` builtins take them apart: the name is what stands in front of the FIRST `=`, the value is everything
+    behind it -- the empty value, values with blanks, quotes and further `=` included (C09, C17)"""
+    bad = None; total = 0
+    ex = _one_literal('src/builtins/export.rs', 'run', ['=', '^('])
+    cases = [(n_ + '=' + v, (n_, v)) for n_ in NAMES_ID for v in VALUES if '\n' not in v]
+    total += len(cases)
+    bad = _required('export', ex, cases)
+    if not bad:
+        al = _one_literal('src/builtins/alias.rs', 'run', ['=', '^('])
+        names = NAMES_ID + ['g-s', 'my-n.1_x', 'll', '1x', '..']
+        cases = [(n_ + '=' + v, (n_, v)) for n_ in names for v in VALUES if '\n' not in v]
+        total += len(cases)
+        bad = _required('alias', al, cases)
+    if not bad:
+        rd = _one_literal('src/builtins/read.rs', '_find_invalid_identifier', ['^['])
+        cases = [(n_, True) for n_ in NAMES_ID] + [(x, False) for x in ('1a', 'a-b', 'a b', '', 'a=', '$a')]
+        total += len(cases)
+        bad = _required('read', rd, cases)
+    return bad, total
+
+
+def ax_ref_gates(tier):
+    """the gates that decide whether a word is looked at by an expansion pass at all accept every word that holds a reference of the kind the pass
+    expands (C10: $NAME ${NAME} $$ $?; C15: $0.. ${n} $@; C11: $(..))"""
+    total = 0
+    ctx = [('', ''), ('a', 'b'), ('x-', '/y'), ('"', '"'), ('=', ''), ('a b ', ' c')]
+    refs10 = ['$A', '${A}', '$a_1', '${a_1}', '$_', '$$', '$?', '${$}', '${?}']
+    # env_in_word: the first literal is the $$ / $? gate, the name gate is assembled with format! from two literals
+    g1 = _one_literal('src/shell.rs', 'env_in_word', ['[\\$\\?]'])
+    bad = _required('env_in_word($$ $?)', g1, [(p_ + r + q_, True) for r in ('$$', '$?', '${$}', '${?}') for p_, q_ in ctx])
+    total += 24
+    if not bad:
+        nm = _one_literal('src/shell.rs', 'env_in_word', ['[a-zA-Z_]'])
+        tpl = _one_literal('src/shell.rs', 'env_in_word', ['\\$\\{{?{}'])
+        ptn = tpl.replace('{{', '\x00').replace('}}', '\x01').replace('{}', nm).replace('\x00', '{').replace('\x01', '}')
+        bad = _required('env_in_word($NAME)', ptn, [(p_ + r + q_, True) for r in refs10[:5] for p_, q_ in ctx] + [('abc', False), ('a$', False), ('$', False)])
+        total += 33
+    if not bad:
+        ga = _one_literal('src/scripting.rs', 'is_args_in_token', ['\\$'])
+        bad = _required('is_args_in_token', ga, [(p_ + r + q_, True) for r in ('$0', '$1', '$9', '$10', '${1}', '${12}', '$@', '${@}') for p_, q_ in ctx] + [('abc', False), ('$a', False)])
+        total += 50
+    if not bad:
+        gd = _one_literal('src/shell.rs', 'should_do_dollar_command_extension', ['\\$\\('])
+        bad = _required('should_do_dollar_command_extension', gd, [(p_ + r + q_, True) for r in ('$(x)', '$(echo a b)', '$(a|b)', '$(a)$(b)') for p_, q_ in ctx] + [('abc', False), ('$x', False), ('$()', False)])
+        total += 27
+    return bad, total
+
+
+def ax_brace_gates(tier):
+    """C12: every word with a comma group without blanks or quotes goes to the brace parser; every {m..n} / {m..n..s} is recognised with its numbers"""
+    total = 0
+    gb = _one_literal('src/shell.rs', 'need_expand_brace', ['\\{'])
+    words = ['{a,b}', 'x{a,b}y', '{a,b,c}', '{,a}', '{a,}', '{a{1..2},b}', 'f{{3..1},z}.txt', 'pre{b{c}d,a,}post', '{a,b}{c,d}', '{{a,b},c}', 'a{b}c{d,e}', '{a,{b,c}d}e', '{1,2}{3..4}']
+    bad = _required('need_expand_brace', gb, [(w, True) for w in words] + [('abc', False), ('{a}', False), ('a,b', False)])
+    total += len(words) + 3
+    if not bad:
+        gr = _one_literal('src/shell.rs', 'expand_brace_range', ['\\.\\.'])
+        cases = []
+        for m_ in ('1', '-3', '10', '0'):
+            for n_ in ('4', '-1', '0', '2147483647'):
+                cases.append(('{%s..%s}' % (m_, n_), (m_, n_)))
+                cases.append(('x{%s..%s}y' % (m_, n_), (m_, n_)))
+                cases.append(('{%s..%s..2}' % (m_, n_), (m_, n_, '..', '2')))
+        bad = _required('expand_brace_range', gr, cases + [('{a..b}', False), ('{1.2}', False), ('1..2', False)])
+        total += len(cases) + 3
+    return bad, total
+
+
+def ax_redirect_ptns(tier):
+    """C04: the two patterns of tokens_to_redirections take a word with ONE output operator apart into (what stands in front, the operator, the target);
+    the second one recognises an operator whose target is the next word"""
+    total = 0
+    p1 = _one_literal('src/parsers/parser_line.rs', 'tokens_to_redirections', ['(>>?)', '+)$'])
+    cases = []
+    for pre in ('', '1', '2', 'x', 'ab'):
+        for op in ('>', '>>'):
+            for tgt in ('f', 'a.txt', '&1', '&2', '/dev/null', 'd/e'):
+                cases.append((pre + op + tgt, (pre, op, tgt)))
+    bad = _required('redirection with its target', p1, cases + [('abc', False), ('>', False), ('2>>', False)])
+    total += len(cases) + 3
+    if not bad:
+        p2 = _one_literal('src/parsers/parser_line.rs', 'tokens_to_redirections', ['(>>?)$'])
+        cases = [(pre + op, (pre, op)) for pre in ('', '1', '2', 'x') for op in ('>', '>>')]
+        bad = _required('redirection whose target is the next word', p2, cases + [('abc', False), ('>f', False)])
+        total += len(cases) + 2
+    return bad, total
+
+
 AXIOMS = {
-    'C01': [('re_gt', ax_re_gt), ('glob_gate', ax_glob_gate)], 'C13': [('re_gt', ax_re_gt), ('assign_ptn', ax_assign_ptn)], 'C04': [('re_gt', ax_re_gt)],
-    'C09': [('assign_ptn', ax_assign_ptn)], 'C12': [('glob_gate', ax_glob_gate)],
-    'C15': [('args_ref', ax_args_ref)],
-    'C10': [('env_ref', ax_env_ref)],
+    'C01': [('re_gt', ax_re_gt), ('glob_gate', ax_glob_gate)], 'C13': [('re_gt', ax_re_gt), ('assign_ptn', ax_assign_ptn)], 'C04': [('re_gt', ax_re_gt), ('redirect_ptns', ax_redirect_ptns)],
+    'C09': [('assign_ptn', ax_assign_ptn), ('name_value', ax_name_value)], 'C12': [('glob_gate', ax_glob_gate), ('brace_gates', ax_brace_gates)],
+    'C17': [('name_value', ax_name_value)], 'C11': [('ref_gates', ax_ref_gates)],
+    'C15': [('args_ref', ax_args_ref), ('ref_gates', ax_ref_gates)],
+    'C10': [('env_ref', ax_env_ref), ('ref_gates', ax_ref_gates)],
     # (the substitution passes no longer use regexes: nothing to validate for C11)
     'C05': [('args_ref', ax_args_ref), ('env_ref', ax_env_ref)],
 }
